@@ -41,16 +41,13 @@ def run(prog, chk):
                ": _read_response silently drops responses whose sink is type(None), and _finish_responses(self) waits for responses "
                "registered under the file - so a write the server rejected is never reported"))
     # the file object's async hook converts status and close re-raises
-    ar = prog.func("SFTPFile._async_response")
-    fa = Flow(prog, ar, env={"t == CMD_STATUS": True})
-    conv = [x for (x, k) in fa.nodes_with_call(attr="_convert_status")]
-    save = fa.nodes(lambda x: x.kind == "stmt" and isinstance(x.ast, ast.Assign) and unparse(x.ast.targets[0]) == "self._saved_exception")
-    hs = [h for h in fa.cfg.nodes if h.kind == "except"]
-    ok = len(conv) == 1 and len(save) == 1 and len(hs) == 1 and hs[0].ast.type is not None and unparse(hs[0].ast.type) == "Exception" \
-        and hs[0].ast.name is not None and unparse(save[0].ast.value) == hs[0].ast.name
-    # no filtering of the saved exception
-    ok = ok and save[0].id in fa.cfg.reach([hs[0].id]) and fa.cfg.dominated([fa.cfg.exit.id], guard_nodes=[save[0].id], start=[hs[0].id])
-    chk.ob("R3.async-status-saved", "SFTPFile._async_response", ok, ar.loc, "every error status of an async response is saved (whatever its class) for the next file operation")
+    from ._shared import async_status_discipline
+    d = async_status_discipline(prog)
+    ok = d["ok_saved"] and set(d["absorbed"]) <= {"EOFError"} and (not d["absorbed"] or d["unregisters"])
+    chk.ob("R3.async-status-saved", "SFTPFile._async_response", ok, d["loc"],
+           "every error status of an async response is saved (whatever its class) for the next file operation%s; %s" % (
+               "" if not d["absorbed"] else " - except %s, which is left to the ordinary read the reader falls back to (allowed only "
+               "because every reply unregisters its request: %s)" % (d["absorbed"], d["unregisters"]), d["detail"]))
     ce = prog.func("SFTPFile._check_exception")
     t = unparse(ce.node)
     chk.ob("R3.saved-exception-reraised", "SFTPFile._check_exception", "raise x" in t and "self._saved_exception = None" in t, ce.loc, "raises and clears the saved exception")
